@@ -98,6 +98,41 @@ theorem funcHyp_sound (D : List Name) (p : ABlock) (O : List Name) (h : funcHyp 
   simp only [funcHyp, Bool.and_eq_true] at h
   exact ⟨liveConsistent_sound p O h.1.1.1, declB_sound p h.1.1.2, defB_sound D p h.1.2, h.2⟩
 
+theorem nodupB_sound : ∀ (l : List Name), nodupB l = true → l.Nodup
+  | [], _ => List.nodup_nil
+  | x :: xs, h => by
+      simp only [nodupB, Bool.and_eq_true, Bool.not_eq_eq_eq_not, Bool.not_true] at h
+      refine List.nodup_cons.mpr ⟨fun hx => ?_, nodupB_sound xs h.2⟩
+      have : xs.contains x = true := by simpa using hx
+      rw [h.1] at this; cases this
+
+mutual
+theorem hypFS_sound : ∀ (s : AStmt), hypFS s = true → HypFS s
+  | .assign .., _ => by simp [HypFS]
+  | .expr .., _ => by simp [HypFS]
+  | .pass .., _ => by simp [HypFS]
+  | .ret .., _ => by simp [HypFS]
+  | .raise .., _ => by simp [HypFS]
+  | .ifS i c t e, h => by
+      simp only [hypFS, Bool.and_eq_true, subB_iff, disjB_iff] at h
+      simp only [HypFS]
+      exact ⟨nodupB_sound _ h.1.1.1.1, h.1.1.1.2, h.1.1.2, hypFB_sound t h.1.2, hypFB_sound e h.2⟩
+  | .whileS i c b, h => by
+      simp only [hypFS, Bool.and_eq_true, subB_iff] at h
+      simp only [HypFS]
+      exact ⟨h.1, hypFB_sound b h.2⟩
+  | .forS i x it extra b, h => by
+      simp only [hypFS, Bool.and_eq_true, subB_iff] at h
+      simp only [HypFS]
+      exact ⟨h.1, hypFB_sound b h.2⟩
+theorem hypFB_sound : ∀ (b : List AStmt), hypFB b = true → HypFB b
+  | [], _ => by simp [HypFB]
+  | s :: r, h => by
+      simp only [hypFB, Bool.and_eq_true] at h
+      simp only [HypFB]
+      exact ⟨hypFS_sound s h.1, hypFB_sound r h.2⟩
+end
+
 /-! ### `annotB` really annotates: erasing the annotation gives the program back -/
 mutual
 theorem annotS_erase : ∀ (s : Stmt) (a : Ann) (s' : AStmt), annotS a s = some s' → eraseS s' = s
